@@ -626,10 +626,16 @@ func markSkip(e ast.Expr) {
 
 var inComm = map[ast.Node]bool{}
 var rangeOverMap = map[ast.Node]bool{}
+var appendLoc = map[*ast.CallExpr]string{}
 var rangeOverChan = map[ast.Node]bool{}
 
 func (x *xf) pre(c *astutil.Cursor) bool {
 	switch n := c.Node().(type) {
+	case *ast.CallExpr:
+		// append(s, ...): the text of s is taken before s is rewritten
+		if x.builtin(n, "append") && len(n.Args) >= 1 {
+			appendLoc[n] = "slot " + types.ExprString(n.Args[0])
+		}
 	case *ast.RangeStmt:
 		// types are looked up before the operand is rewritten
 		if mt, ok := x.mapType(n.X); ok && orderedKey(mt) {
@@ -815,6 +821,13 @@ func (x *xf) blockingSelect(n *ast.SelectStmt) ast.Stmt {
 
 func (x *xf) post(c *astutil.Cursor) bool {
 	switch n := c.Node().(type) {
+	case *ast.CallExpr:
+		// append(s, ...) that fits into the capacity of s writes the element behind s in place: two such appends
+		// to slices sharing a backing array are a write-write race on that element
+		if loc, ok := appendLoc[n]; ok {
+			n.Args[0] = vrtCall("AppendSlot", n.Args[0], x.site(loc))
+			x.needRT = true
+		}
 	case *ast.Ident:
 		if skip[n] {
 			return true
